@@ -254,9 +254,6 @@ Proof.
       cbn [app length]. split; [|split; [|split]].
       * cbn [seq map]. rewrite Z.add_0_r, Z.mod_small by lia. rewrite Hfs. f_equal.
         rewrite I1 at 1. rewrite <- seq_shift, map_map. apply map_ext. intros k.
-        rewrite <- mod253_step. change (v0 + Z.of_nat 1) with (v0 + 1).
-        replace ((v0 + 1) mod 253 + Z.of_nat k) with (Z.of_nat k + (v0 + 1) mod 253) by lia.
-        rewrite Zplus_mod_idemp_r. rewrite <- (Zplus_mod_idemp_l (v0 + Z.of_nat k)).
         rewrite Zplus_mod_idemp_l. f_equal. lia.
       * rewrite I2. rewrite Zplus_mod_idemp_l. f_equal. lia.
       * exact I3.
@@ -266,3 +263,143 @@ Proof.
       destruct (hb_calls i rest ra) as [r' l]. rewrite Ss, Hfs in IH. fold v0 in IH. cbn [app]. exact IH.
 Qed.
 Print Assumptions hb_sequence.
+
+(* ================= 5. SetHeartbeatIntervalAndOffset ================= *)
+Lemma millis64_snd_ext r r' : rn r = rn r' -> r_clk r = r_clk r' -> snd (millis64 r) = snd (millis64 r').
+Proof. intros H1 H2. unfold millis64, w64, now32, now. rewrite H1, H2. destruct (n_w64 (rn r')); reflexivity. Qed.
+
+(* the treatment of one device *)
+Definition hb_set_one (r:rnode) (i iv off:Z) : rnode :=
+  let x := get_devx r i in
+  let interval1 := if iv =? 4294967295 then ss_period (x_hb x) else if iv =? 4294967294 then c_DefaultHeartbeatInterval else iv in
+  let offset1 := if off =? 4294967295 then ss_offset (x_hb x) else off in
+  if interval1 =? 0 then
+    with_devx r i {| x_pend_claim := x_pend_claim x; x_pend_prod := x_pend_prod x; x_pend_conf := x_pend_conf x;
+                     x_hb := {| ss_next := ss_disabled; ss_offset := ss_offset (x_hb x); ss_period := ss_period (x_hb x) |};
+                     x_hb_seq := x_hb_seq x; x_rx := x_rx x |}
+  else
+    let interval2 := Z.max 1000 (Z.min interval1 c_MaxHeartbeatInterval) in
+    let changed := negb (ss_period (x_hb x) =? interval2) || negb (ss_offset (x_hb x) =? offset1) in
+    if changed then
+      let '(rc, t) := millis64 r in
+      with_devinfo_changed (with_devx rc i {| x_pend_claim := x_pend_claim x; x_pend_prod := x_pend_prod x; x_pend_conf := x_pend_conf x;
+                                              x_hb := ss_update_next t (r_sync rc) {| ss_next := ss_next (x_hb x); ss_offset := offset1; ss_period := interval2 |};
+                                              x_hb_seq := x_hb_seq x; x_rx := x_rx x |})
+    else r.
+Lemma set_heartbeat_all_S k r i iv off : set_heartbeat_all (S k) r i iv off = set_heartbeat_all k (hb_set_one r i iv off) (i + 1) iv off.
+Proof.
+  cbn [set_heartbeat_all]. unfold hb_set_one. cbv zeta.
+  destruct (_ =? 0); [reflexivity|]. destruct (_ || _); [|reflexivity]. destruct (millis64 r). reflexivity.
+Qed.
+
+Lemma resolve_model iv cur :
+  let interval1 := if iv =? 4294967295 then cur else if iv =? 4294967294 then c_DefaultHeartbeatInterval else iv in
+  hb_resolve_period iv cur = if interval1 =? 0 then None else Some (Z.max 1000 (Z.min interval1 c_MaxHeartbeatInterval)).
+Proof.
+  cbv zeta. unfold hb_resolve_period, c_DefaultHeartbeatInterval, c_MaxHeartbeatInterval.
+  destruct (_ =? 0); [reflexivity|]. f_equal. lia.
+Qed.
+
+Record one_ok (r r1:rnode) (i iv off:Z) : Prop := {
+  o_rn : rn r1 = rn r; o_len : length (rx_dev r1) = length (rx_dev r); o_sync : r_sync r1 = r_sync r; o_slots : r_slots r1 = r_slots r;
+  o_q : r_q r1 = r_q r; o_t : snd (millis64 r1) = snd (millis64 r);
+  o_other : forall j, 0 <= j -> j <> i -> get_devx r1 j = get_devx r j;
+  o_flag : r_devinfo_changed r1 = r_devinfo_changed r || hb_changed iv off (get_devx r i);
+  o_this : i < Z.of_nat (length (rx_dev r)) ->
+     let x := get_devx r i in let x' := get_devx r1 i in
+     x_hb_seq x' = x_hb_seq x /\ x_pend_claim x' = x_pend_claim x /\ x_pend_prod x' = x_pend_prod x /\ x_pend_conf x' = x_pend_conf x /\ x_rx x' = x_rx x /\
+     match hb_resolve_period iv (ss_period (x_hb x)) with
+     | None => x_hb x' = hb_at (x_hb x) ss_disabled
+     | Some p => 1000 <= p <= 655320 /\
+       if hb_changed iv off x
+       then x_hb x' = ss_update_next (snd (millis64 r)) (r_sync r) {| ss_next := ss_next (x_hb x); ss_offset := hb_resolve_offset off (ss_offset (x_hb x)); ss_period := p |}
+       else x_hb x' = x_hb x
+     end }.
+
+Lemma hb_set_one_ok r i iv off : 0 <= i -> one_ok r (hb_set_one r i iv off) i iv off.
+Proof.
+  intros Hi.
+  pose proof (resolve_model iv (ss_period (x_hb (get_devx r i)))) as RM. cbv zeta in RM.
+  assert (HC: hb_changed iv off (get_devx r i) =
+              match hb_resolve_period iv (ss_period (x_hb (get_devx r i))) with
+              | None => false
+              | Some p => negb (ss_period (x_hb (get_devx r i)) =? p) || negb (ss_offset (x_hb (get_devx r i)) =? hb_resolve_offset off (ss_offset (x_hb (get_devx r i))))
+              end) by reflexivity.
+  unfold hb_set_one. cbv zeta.
+  fold (hb_resolve_offset off (ss_offset (x_hb (get_devx r i)))).
+  set (interval1 := if iv =? 4294967295 then ss_period (x_hb (get_devx r i)) else if iv =? 4294967294 then c_DefaultHeartbeatInterval else iv) in *.
+  destruct (interval1 =? 0).
+  - rewrite RM in HC.
+    constructor; [reflexivity|apply with_devx_length|reflexivity|reflexivity|reflexivity|apply millis64_snd_ext; reflexivity| | |].
+    + intros j Hj Hne. apply get_devx_with_devx_neq; lia.
+    + rewrite HC, orb_false_r. reflexivity.
+    + intros Hr. cbv zeta. rewrite get_devx_with_devx by lia. rewrite RM. cbn. repeat split.
+  - set (p := Z.max 1000 (Z.min interval1 c_MaxHeartbeatInterval)) in *.
+    assert (Hpr: 1000 <= p <= 655320) by (unfold p, c_MaxHeartbeatInterval; lia).
+    rewrite RM in HC.
+    destruct (negb (ss_period (x_hb (get_devx r i)) =? p) || negb (ss_offset (x_hb (get_devx r i)) =? hb_resolve_offset off (ss_offset (x_hb (get_devx r i))))) eqn:Hch.
+    + pose proof (millis64_rn r) as M1. pose proof (millis64_rx_dev r) as M2. pose proof (millis64_sync r) as M3.
+      pose proof (millis64_idem r) as M4.
+      assert (M5: r_slots (fst (millis64 r)) = r_slots r) by (unfold millis64; destruct (w64 r); reflexivity).
+      assert (M6: r_q (fst (millis64 r)) = r_q r) by (unfold millis64; destruct (w64 r); reflexivity).
+      assert (M7: r_devinfo_changed (fst (millis64 r)) = r_devinfo_changed r) by (unfold millis64; destruct (w64 r); reflexivity).
+      destruct (millis64 r) as [rc t] eqn:EM. cbn [fst snd] in *.
+      constructor; rewrite ?EM; cbn [with_devinfo_changed with_devx rn rx_dev r_sync r_slots r_q r_devinfo_changed]; [exact M1| |exact M3|exact M5|exact M6| | | |].
+      * rewrite zset_length, M2. reflexivity.
+      * transitivity (snd (millis64 rc)); [apply millis64_snd_ext; reflexivity|]. rewrite M4. reflexivity.
+      * intros j Hj Hne. unfold get_devx. cbn [with_devinfo_changed with_devx rx_dev]. unfold znth, zset. rewrite nth_set_nth_neq by lia. rewrite M2. reflexivity.
+      * rewrite HC, orb_true_r. reflexivity.
+      * intros Hr. cbv zeta. rewrite RM, HC.
+        match goal with |- context [get_devx (with_devinfo_changed (with_devx rc i ?X)) i] =>
+          assert (G: get_devx (with_devinfo_changed (with_devx rc i X)) i = X)
+            by (unfold get_devx at 1; cbn [with_devinfo_changed with_devx rx_dev]; apply znth_zset_eq; rewrite M2; lia) end.
+        rewrite G. cbn [x_hb_seq x_pend_claim x_pend_prod x_pend_conf x_rx x_hb].
+        repeat (split; [reflexivity|]). split; [exact Hpr|]. rewrite M3. reflexivity.
+    + constructor; [reflexivity|reflexivity|reflexivity|reflexivity|reflexivity|reflexivity|intros; reflexivity| |].
+      * rewrite HC, orb_false_r. reflexivity.
+      * intros Hr. cbv zeta. rewrite RM, HC. repeat (split; [reflexivity|]). split; [exact Hpr|reflexivity].
+Qed.
+
+Theorem hb_clip : hb_clip_stmt.
+Proof.
+  unfold hb_clip_stmt. induction k as [|k IH]; intros r i iv off Hi; cbv zeta.
+  - cbn [set_heartbeat_all seq map existsb]. rewrite orb_false_r. repeat (split; [reflexivity|]).
+    split; [|reflexivity]. intros j Hj. cbv zeta. split; [reflexivity|]. cbn. lia.
+  - rewrite set_heartbeat_all_S.
+    destruct (hb_set_one_ok r i iv off Hi) as [O1 O2 O3 O4 O5 O6 O7 O8 O9].
+    set (r1 := hb_set_one r i iv off) in *.
+    specialize (IH r1 (i + 1) iv off ltac:(lia)). cbv zeta in IH.
+    destruct IH as (I1 & I2 & I3 & I4 & I5 & I6 & I7).
+    split; [congruence|]. split; [congruence|]. split; [congruence|]. split; [congruence|]. split; [congruence|].
+    split.
+    + intros j Hj. cbv zeta. specialize (I6 j ltac:(rewrite O2; exact Hj)). cbv zeta in I6. destruct I6 as [I6a I6b].
+      split.
+      * intros Hout. rewrite I6a by lia. apply O7; lia.
+      * intros Hin. destruct (Z.eq_dec j i) as [->|Hne].
+        -- rewrite I6a by lia. apply O9. lia.
+        -- rewrite O6, O3, (O7 j ltac:(lia) Hne) in I6b. apply I6b. lia.
+    + rewrite I7, O8. rewrite <- orb_assoc. f_equal.
+      cbn [seq map existsb]. rewrite Z.add_0_r. f_equal.
+      rewrite <- seq_shift, map_map.
+      assert (E: forall l, existsb (fun j => hb_changed iv off (get_devx r1 j)) (map (fun n => i + 1 + Z.of_nat n) l)
+                       = existsb (fun j => hb_changed iv off (get_devx r j)) (map (fun x => i + Z.of_nat (S x)) l)).
+      { induction l as [|a l IHl]; [reflexivity|]. cbn [map existsb]. rewrite IHl. f_equal.
+        rewrite O7 by lia. f_equal. f_equal. lia. }
+      apply E.
+Qed.
+Print Assumptions hb_clip.
+
+(* 5b. the refutation *)
+Theorem hb_reenable_refuted : hb_reenable_refuted_stmt.
+Proof. unfold hb_reenable_refuted_stmt. intros cfg. vm_compute. repeat split; intros; discriminate. Qed.
+Print Assumptions hb_reenable_refuted.
+Theorem hb_reenable_false : ~ hb_reenable_stmt.
+Proof.
+  intros H. pose (cfg := {| c_only_known := false; c_iso_handler := None; c_prodinfo := []; c_confinfo := []; c_hb_on := true;
+                             c_inst1 := []; c_inst2 := []; c_manuf := []; c_inst_changed := false |}).
+  destruct (hb_reenable_refuted cfg) as (A & B & C & D & E & F & _).
+  apply (H (hb_reenable_witness cfg) 0 60000 10000); try assumption.
+  all: try (rewrite E; discriminate).
+  all: try (vm_compute; split; [discriminate|reflexivity]).
+Qed.
+Print Assumptions hb_reenable_false.
